@@ -12,7 +12,7 @@ respect_retry_after backoff_factor backoff_max` (history empty).
 * `run <proxied> <redirect> <body> <method> <script> <policy…>` — one `urlopen(method, url, body,
   retries=policy, redirect=redirect)` on a pool whose own `retries` is `None`; `policy` is the 13
   tokens of a Retry object or `I <~|F|int>` (then `Retry.from_int` runs inside the model); script
-  items `ct cr st sr sp rt rr re rg o s<status>[:<retry-after>] l<status>[:<retry-after>]` (`l`: the reply
+  items `ct cr ht hr st sr sp rt rr re rg o s<status>[:<retry-after>] l<status>[:<retry-after>]` (`l`: the reply
   carries `Location:` a path on the same pool).  Answer: per attempt
   `<method>@<target><+|-(body)>/<outcome>`, requests on the wire, sleeps, result
   (`resp:<script index of the reply returned>:<status>`);
@@ -58,6 +58,8 @@ def respTok? (s : String) : Option (Nat × Option Nat) :=
 def outcome? (s : String) : Option Outcome :=
   if s == "ct" then some (.connectError .timeout)
   else if s == "cr" then some (.connectError .refused)
+  else if s == "ht" then some (.handshakeError .timeout)
+  else if s == "hr" then some (.handshakeError .reset)
   else if s == "st" then some (.sendError .timeout)
   else if s == "sr" then some (.sendError .reset)
   else if s == "sp" then some (.sendError .pipe)
@@ -117,6 +119,8 @@ def showInts (l : List Int) : String := if l.isEmpty then "-" else ",".intercala
 def showOutcome : Outcome → String
   | .connectError .timeout => "ct"
   | .connectError .refused => "cr"
+  | .handshakeError .timeout => "ht"
+  | .handshakeError .reset => "hr"
   | .sendError .timeout => "st"
   | .sendError .reset => "sr"
   | .sendError .pipe => "sp"
